@@ -122,6 +122,8 @@ def positions(rng, n, layout, dmin, spread=1.0):
 
 def rand_wf(rng, dur, kind, lo, hi, positive):
     """one waveform of `dur` ns with values in [lo, hi] (area for blackman)"""
+    if dur < 2 or (dur < 5 and kind not in ("const", "ramp")):
+        kind = "const" if dur < 2 else str(rng.choice(["const", "ramp"]))  # pulser's RampWaveform(1, ..) yields NaN samples
     if kind == "const":
         return ["const", dur, float(rng.uniform(lo, hi))]
     if kind == "ramp":
@@ -175,7 +177,7 @@ def random_spec(rng, *, n, basis="ising", layout=None, dmin=6.0, spread=0.6, n_p
         w = rng.uniform(0.1, 1.0, size=k)
         w[0] = 1.0
         spec["dmm_map"] = {ids[int(i)]: float(round(x, 4)) for i, x in zip(sel, w)}
-    if slm and n >= 2:
+    if slm and n >= 2 and not modulation:  # pulser refuses SLM mask + output modulation
         k = int(rng.integers(1, n))
         spec["slm"] = [ids[int(i)] for i in rng.choice(n, size=k, replace=False)]
     if basis == "xy" and rng.random() < 0.5:
